@@ -635,52 +635,46 @@ void PLS(matrix *mx, matrix *my, size_t nlv, int xautoscaling, int yautoscaling,
 void PLSBetasCoeff(PLSMODEL *model, size_t nlv, dvector *betas)
 {
   /* compute beta coefficient
-   Wstar = W *(P'*W)^(-1);
-   B = Wstar*b’;
-  */
-  size_t i, j;
-  matrix *W, *P_, *B_;
-  NewMatrix(&W, model->xweights->row, nlv);
-  NewMatrix(&P_, nlv, model->xweights->row);
-  NewMatrix(&B_, nlv, 1);;
-
-  for(j = 0; j < nlv; j++){
-    for(i = 0; i < model->xweights->row; i++){
-      W->data[i][j] = model->xweights->data[i][j];
-      P_->data[j][i] = model->xloadings->data[i][j];
-    }
-    B_->data[j][0] = model->b->data[j];
-  }
-
-  matrix *PW;
-  NewMatrix(&PW, nlv, nlv);
-  MatrixDotProduct(P_, W, PW);
-  DelMatrix(&P_);
-
-  matrix *PWinv;
-  initMatrix(&PWinv);
-  MatrixInversion(PW, PWinv);
-  DelMatrix(&PW);
-
+   *  Wstar = W *(P'*W)^(-1);
+   *  B = Wstar*b';
+   *
+   * P'W is unit upper triangular, so Wstar is obtained column by column without
+   * an inversion (the same recursion the score predictor applies to an object):
+   *  r_a = w_a - Sum_{i<a} (p_i'w_a) r_i
+   * A null latent variable (w = p = 0, b = 0) makes P'W singular but contributes
+   * nothing to this sum.
+   */
+  size_t a, i, k;
+  size_t nvar = model->xweights->row;
+  double pw;
   matrix *WStar;
-  NewMatrix(&WStar, W->row, nlv);
-  MatrixDotProduct(W, PWinv, WStar);
-  DelMatrix(&PWinv);
 
-  matrix *betas_;
-  NewMatrix(&betas_, WStar->row, 1);
-  MatrixDotProduct(WStar, B_, betas_);
+  if(nlv > model->xweights->col)
+    nlv = model->xweights->col;
 
-  DVectorResize(betas, model->xweights->row);
-  for(i = 0; i < betas_->row; i++){
-    betas->data[i] = betas_->data[i][0];
+  NewMatrix(&WStar, nvar, nlv);
+  DVectorResize(betas, nvar);
+
+  for(a = 0; a < nlv; a++){
+    for(k = 0; k < nvar; k++){
+      WStar->data[k][a] = model->xweights->data[k][a];
+    }
+
+    for(i = 0; i < a; i++){
+      pw = 0.f;
+      for(k = 0; k < nvar; k++){
+        pw += model->xloadings->data[k][i]*model->xweights->data[k][a];
+      }
+      for(k = 0; k < nvar; k++){
+        WStar->data[k][a] -= pw*WStar->data[k][i];
+      }
+    }
+
+    for(k = 0; k < nvar; k++){
+      betas->data[k] += model->b->data[a]*WStar->data[k][a];
+    }
   }
-  // PrintDVector((*betas));
   DelMatrix(&WStar);
-  DelMatrix(&betas_);
-
-  DelMatrix(&B_);
-  DelMatrix(&W);
 }
 /*
  * For prediction we need p', q', w', b coefficient, the column average and the column sdev (for mean centering and scaling the matrix), from the PLS Calibration.
